@@ -193,4 +193,177 @@ theorem fixupLoopT_pos (size : U32) (hs : 0 < size.toNat) :
         exact fixupLoopT_pos size hs fuel (x - size) (by omega)
       · rfl
 
+/-! ### igris::ring<char>: bulk `write`/`read` interleaved with `push` / `tail(); pop()` on ONE object -/
+
+/-- operations of `igris::ring<char>` -/
+inductive COp where
+  | push (x : Byte)
+  | pop
+  | write (d : List Byte)
+  | read (n : Nat)
+
+inductive COut where
+  | unit
+  | elem (x : Byte)
+  | count (n : Nat)
+  | bytes (d : List Byte)
+  deriving DecidableEq
+
+/-- `push(x)`; `tail()` then `pop()`; `write(buf, |d|)` = `ring_write(&r, buffer.data(), …)`;
+`read(buf, n)` = `ring_read(&r, buffer.data(), …)` -/
+def stepC (t : TRing Byte) : COp → Option (TRing Byte × COut)
+  | .push x => (t.push x).map fun t' => (t', .unit)
+  | .pop =>
+    match t.tail with
+    | none => none
+    | some v => (t.pop 0#8).map fun t' => (t', .elem v)
+  | .write d => (ringWrite t.r t.buf d).map fun (r', b', k) => (⟨r', b'⟩, .count k)
+  | .read n => (ringRead t.r t.buf n).map fun (r', out) => ({ t with r := r' }, .bytes out)
+
+def runC : TRing Byte → List COp → Option (TRing Byte × List COut)
+  | t, [] => some (t, [])
+  | t, op :: ops =>
+    match stepC t op with
+    | none => none
+    | some (t', o) =>
+      match runC t' ops with
+      | none => none
+      | some (t'', os) => some (t'', o :: os)
+
+/-- reference: a `List Byte` queue of capacity `cap`; `none` = outside the contract of
+the typed ring (push needs room, pop needs an element); write / read of any length
+are always inside it -/
+def specC (cap : Nat) (q : List Byte) : COp → Option (List Byte × COut)
+  | .push x => if q.length < cap then some (q ++ [x], .unit) else none
+  | .pop =>
+    match q with
+    | [] => none
+    | y :: q' => some (q', .elem y)
+  | .write d => some (q ++ d.take (cap - q.length), .count (min d.length (cap - q.length)))
+  | .read n => some (q.drop n, .bytes (q.take n))
+
+def runSpecC (cap : Nat) : List Byte → List COp → Option (List Byte × List COut)
+  | q, [] => some (q, [])
+  | q, op :: ops =>
+    match specC cap q op with
+    | none => none
+    | some (q', o) =>
+      match runSpecC cap q' ops with
+      | none => none
+      | some (q'', os) => some (q'', o :: os)
+
+theorem stepC_refines {t : TRing Byte} {q q1 : List Byte} {o : COut} (h : Abs t.r t.buf q) (op : COp)
+    (e : specC (t.r.size.toNat - 1) q op = some (q1, o)) :
+    ∃ t1, stepC t op = some (t1, o) ∧ t1.r.size = t.r.size ∧ Abs t1.r t1.buf q1 := by
+  cases op with
+  | push x =>
+    simp only [specC] at e
+    split at e
+    · rename_i hr
+      obtain ⟨rfl, rfl⟩ : q ++ [x] = q1 ∧ COut.unit = o := by simpa using e
+      obtain ⟨t1, e1, hs1, h1⟩ := TRing.push_abs x h hr
+      exact ⟨t1, by simp [stepC, e1], hs1, h1⟩
+    · cases e
+  | pop =>
+    cases q with
+    | nil => simp [specC] at e
+    | cons y q0 =>
+      obtain ⟨rfl, rfl⟩ : q0 = q1 ∧ COut.elem y = o := by simpa [specC] using e
+      obtain ⟨t1, e1, hs1, h1⟩ := TRing.pop_abs (0#8 : Byte) h
+      exact ⟨t1, by simp [stepC, TRing.tail_abs h, e1], hs1, h1⟩
+  | write d =>
+    obtain ⟨rfl, rfl⟩ : q ++ d.take (t.r.size.toNat - 1 - q.length) = q1 ∧
+        COut.count (min d.length (t.r.size.toNat - 1 - q.length)) = o := by simpa [specC] using e
+    obtain ⟨r', b', e1, hs1, ha⟩ := abs_write d h
+    exact ⟨⟨r', b'⟩, by simp [stepC, e1], hs1, ha⟩
+  | read n =>
+    obtain ⟨rfl, rfl⟩ : q.drop n = q1 ∧ COut.bytes (q.take n) = o := by simpa [specC] using e
+    obtain ⟨r', e1, hs1, ha⟩ := abs_read n h
+    exact ⟨{ t with r := r' }, by simp [stepC, e1], hs1, ha⟩
+
+theorem runC_refines : ∀ (ops : List COp) {t : TRing Byte} {q q' : List Byte} {outs : List COut},
+    Abs t.r t.buf q → runSpecC (t.r.size.toNat - 1) q ops = some (q', outs) →
+    ∃ t', runC t ops = some (t', outs) ∧ t'.r.size = t.r.size ∧ Abs t'.r t'.buf q'
+  | [], t, q, q', outs, h, hs => by
+      obtain ⟨rfl, rfl⟩ : q = q' ∧ [] = outs := by simpa [runSpecC] using hs
+      exact ⟨t, rfl, rfl, h⟩
+  | op :: ops, t, q, q', outs, h, hs => by
+      simp only [runSpecC] at hs
+      split at hs
+      · cases hs
+      · rename_i q1 o e
+        split at hs
+        · cases hs
+        · rename_i q2 os e2
+          obtain ⟨rfl, rfl⟩ : q2 = q' ∧ o :: os = outs := by simpa using hs
+          obtain ⟨t1, e1, hs1, h1⟩ := stepC_refines h op e
+          rw [← hs1] at e2
+          obtain ⟨t2, e3, hs2, h2⟩ := runC_refines ops h1 e2
+          exact ⟨t2, by simp [runC, e1, e3], hs2.trans hs1, h2⟩
+
+/-- bytes the ring accepted / delivered in one step -/
+def acceptedC : COp → COut → List Byte
+  | .push x, _ => [x]
+  | .write d, .count k => d.take k
+  | _, _ => []
+
+def deliveredC : COut → List Byte
+  | .elem y => [y]
+  | .bytes d => d
+  | _ => []
+
+def acceptedAllC : List COp → List COut → List Byte
+  | op :: ops, o :: os => acceptedC op o ++ acceptedAllC ops os
+  | _, _ => []
+
+def deliveredAllC : List COut → List Byte
+  | [] => []
+  | o :: os => deliveredC o ++ deliveredAllC os
+
+theorem take_min_length (d : List Byte) (m : Nat) : d.take (min d.length m) = d.take m := by
+  rcases Nat.le_total d.length m with hle | hle
+  · rw [Nat.min_eq_left hle, List.take_of_length_le (Nat.le_refl _), List.take_of_length_le hle]
+  · rw [Nat.min_eq_right hle]
+
+theorem specC_conserves (cap : Nat) : ∀ (ops : List COp) {q q' : List Byte} {outs : List COut},
+    runSpecC cap q ops = some (q', outs) → q ++ acceptedAllC ops outs = deliveredAllC outs ++ q'
+  | [], q, q', outs, hs => by
+      obtain ⟨rfl, rfl⟩ : q = q' ∧ [] = outs := by simpa [runSpecC] using hs
+      simp [acceptedAllC, deliveredAllC]
+  | op :: ops, q, q', outs, hs => by
+      simp only [runSpecC] at hs
+      split at hs
+      · cases hs
+      · rename_i q1 o e
+        split at hs
+        · cases hs
+        · rename_i q2 os e2
+          obtain ⟨rfl, rfl⟩ : q2 = q' ∧ o :: os = outs := by simpa using hs
+          have ih := specC_conserves cap ops e2
+          simp only [acceptedAllC, deliveredAllC]
+          cases op with
+          | push x =>
+            simp only [specC] at e
+            split at e
+            · obtain ⟨rfl, rfl⟩ : q ++ [x] = q1 ∧ COut.unit = o := by simpa using e
+              simp only [acceptedC, deliveredC, List.nil_append]
+              rw [← ih]; simp
+            · cases e
+          | pop =>
+            cases q with
+            | nil => simp [specC] at e
+            | cons y q0 =>
+              obtain ⟨rfl, rfl⟩ : q0 = q1 ∧ COut.elem y = o := by simpa [specC] using e
+              simp only [acceptedC, deliveredC, List.nil_append, List.cons_append]
+              rw [ih]
+          | write d =>
+            obtain ⟨rfl, rfl⟩ : q ++ d.take (cap - q.length) = q1 ∧
+                COut.count (min d.length (cap - q.length)) = o := by simpa [specC] using e
+            simp only [acceptedC, deliveredC, List.nil_append]
+            rw [take_min_length, ← List.append_assoc, ih]
+          | read n =>
+            obtain ⟨rfl, rfl⟩ : q.drop n = q1 ∧ COut.bytes (q.take n) = o := by simpa [specC] using e
+            simp only [acceptedC, deliveredC, List.nil_append]
+            rw [List.append_assoc, ← ih, ← List.append_assoc, List.take_append_drop]
+
 end Igris.C03
